@@ -29,7 +29,9 @@ class ModuleInfo:
     def _index(self, body):
         for n in body:
             if isinstance(n, (ast.FunctionDef, ast.AsyncFunctionDef)):
-                self.defs.setdefault(n.name, n)
+                if is_overload_stub(n):
+                    continue
+                self.defs[n.name] = n          # a later definition replaces an earlier one
             elif isinstance(n, ast.ClassDef):
                 self.defs.setdefault(n.name, n)
                 self.classes[n.name] = n
@@ -78,8 +80,9 @@ class ModuleInfo:
             found = None
             for n in self._walk_defs(body):
                 if isinstance(n, (ast.FunctionDef, ast.ClassDef, ast.AsyncFunctionDef)) and n.name == p:
-                    found = n
-                    break
+                    if isinstance(n, ast.FunctionDef) and is_overload_stub(n):
+                        continue
+                    found = n          # last definition wins, as at run time
             if found is None:
                 return None, chain
             node = found
@@ -121,6 +124,14 @@ class ModuleInfo:
 
     def source_hash(self, node):
         return hashlib.sha256(self.segment(node).encode()).hexdigest()[:16]
+
+
+def is_overload_stub(fn):
+    for d in fn.decorator_list:
+        name = d.id if isinstance(d, ast.Name) else (d.attr if isinstance(d, ast.Attribute) else None)
+        if name == "overload":
+            return True
+    return False
 
 
 def loops_of(fn_node):
